@@ -121,7 +121,72 @@ def c14(sc, tier, seed):
                             rule='TLC enumerates all 21952 programs of length 3 of two connections over {SELECT 0/1/15/16/-1, FLUSHDB, FLUSHALL, DBSIZE, SET/GET of a key name that holds different values in databases 0 and 1, KEYS *, CLIENT SETNAME/GETNAME, HELLO 3}, checks SessionIsolation, NamespaceIsolation and FlushGlobal on the ideal reading, and replays every program on real connections (replies, all databases after every step, and finally each connection\'s selected db / protocol / name / MULTI state); plus random walks of depth 8 of three connections (also HELLO 2/4, MULTI/EXEC, invalid names).')
 
 
-CHECKS = {'C02': c02, 'C14': c14, 'C10': c10, 'C09': c09, 'C07': c07, 'C06': c06, 'C03': c03, 'C04': c04, 'C05': c05}
+def lin_check(sc, tier, seed, prop, walk_module, n_hist, depth, rule, assumptions=(), hammer_rounds=(2, 20)):
+    """Concurrent executions of TLC-generated programs, each recorded history validated by TLC (Trace_Lin)."""
+    v = Verdict(prop, tier, seed)
+    exe = build_harness(sc)
+    devs = open_devs()
+    num = n_hist[0] if tier == 'quick' else n_hist[1]
+    cfg = mc_cfg(walk_module, []).replace('Depth = 24', 'Depth = %d' % depth)
+    out, st = run_tlc(sc, walk_module, cfg, workers=1, timeout=900,
+                      extra=['-simulate', 'num=%d' % num, '-depth', str(3 * depth + 5), '-seed', str(seed)])
+    if st['rc'] != 0 or st['violated']:
+        raise Inconclusive('TLC simulation failed on %s:\n%s' % (walk_module, '\n'.join(st['tail'][-20:])))
+    walks = [op for op in tlc_json_lines(out) if op.get('walk')]
+    if not walks:
+        raise Inconclusive('no walks generated')
+    cases = walks_to_conc_cases(walks)
+    # "hammer" programs defined in the model (one repeated contended command per connection, pipelined)
+    ham_rounds = hammer_rounds[0] if tier == 'quick' else hammer_rounds[1]
+    for op in tlc_json_lines(out):
+        if 'hammer' in op:
+            for rnd in range(ham_rounds):
+                for spec in op['hammer']:
+                    progs = spec['progs']
+                    if isinstance(progs, list):
+                        progs = {str(i + 1): p for i, p in enumerate(progs)}
+                    cases.append({'id': len(cases), 'pre': op['pre'], 'progs': progs, 'mode': 'pipe', 'chunk': spec.get('chunk', 0), 'name': spec['name']})
+            break
+    hists = run_conc(exe, sc, cases)
+    ok = [h for h in hists if h['status'] == 'ok']
+    for h in hists:
+        if h['status'] in ('crash', 'noreply'):
+            v.record_violation(cases[h['id']], {'fail': {'status': h['status'], 'detail': h.get('detail', ''), 'cmd': 'concurrent programs'}, 'stderr': h.get('stderr', '')}, engine='conc')
+        elif h['status'] != 'ok':
+            v.inconclusive.append('conc case %s: %s' % (h['id'], h.get('detail')))
+    accepted, rejected, stats = validate_histories(sc, ok, devs)
+    for bad, ev in rejected:
+        v.record_violation({'history': bad, 'programs': cases[bad['id']]['progs'], 'mode': bad.get('mode')},
+                           {'fail': {'status': 'viol', 'cmd': 'history %d' % bad['id'],
+                                     'detail': 'no linearization: TLC exhausted every interleaving; the search never got past event %d of %d' % (ev, len(bad['ev']))}},
+                           engine='trace_lin')
+    v.cov['evaluations'] += len(hists)
+    v.cov['traces_validated_against_impl'] += len(accepted) + len(rejected)
+    v.cov['distinct_nontrivial'] += sum(1 for h in ok if h.get('overlaps', 0) > 0)
+    for s_ in stats:
+        v.cov['states'] += s_.get('distinct', 0)
+        v.cov['transitions'] += s_.get('generated', 0)
+    v.cov['tlc_runs'].append({'model': walk_module + ' (simulation: programs)', 'walks': len(walks), 'wall_s': st['wall_s']})
+    v.cov['tlc_runs'].extend({'model': 'Trace_Lin (validation)', **s_} for s_ in stats)
+    v.cov['engines']['conc'] = {'histories': len(hists), 'accepted': len(accepted), 'rejected': len(rejected),
+                                'with_overlapping_operations': sum(1 for h in ok if h.get('overlaps', 0) > 0),
+                                'overlapping_operation_pairs': sum(h.get('overlaps', 0) for h in ok)}
+    if ok:
+        h0 = ok[0]
+        v.cov['samples'].append({'mode': h0.get('mode'), 'events': [[e['e'], e['c']] for e in h0['ev'][:12]], 'ops_conn1': [cmd_text(o['cmd']) for o in h0['ops'][0][:6]]})
+    v.assumptions = list(assumptions) + [
+        'black box: a torn multi-key write, a lost update or a reply from a state that never existed is caught whenever the Go runtime produces it; no particular preemption inside a store method can be forced',
+        'real-time order from a global atomic stamp taken before the request is written and after the reply was read',
+        'the sequential oracle is the specification with the known functional deviations enabled (atomicity is judged independently of them)']
+    return v.finish(rule=rule)
+
+
+def c08(sc, tier, seed):
+    return lin_check(sc, tier, seed, 'C08', 'MC_conc', (64, 1500), 24,
+                     'TLC simulation of MC_conc yields walks of 24 steps of 3 connections over a contended vocabulary (read-modify-write on shared keys, multi-key commands, producer-tagged values); each walk is split into one program per connection; the programs run concurrently on the real server (alternating request/response and fully pipelined mode, released from a barrier); in addition the model\'s "hammer" programs (3-4 connections each repeating one contended read-modify-write / multi-key command 60-150 times, pipelined; MULTI/EXEC blocks against MGET observers) are run; TLC (Trace_Lin, depth-first) searches every interleaving of the specification\'s atomic steps for one that explains all replies, per-connection and real-time order, and the final state. Non-trivial = history with overlapping operations of different connections.')
+
+
+CHECKS = {'C02': c02, 'C08': c08, 'C14': c14, 'C10': c10, 'C09': c09, 'C07': c07, 'C06': c06, 'C03': c03, 'C04': c04, 'C05': c05}
 
 
 def replay_path(path):
